@@ -85,6 +85,7 @@ def run(ctx, R, tier):
     R.rule("C14-R3", "MemoryStorage and SqlStorage define the same storage protocol with the same parameter lists; NameServer uses only methods both have", floor=8)
     R.rule("C14-R4", "every deletion path of NameServer.remove excludes core.NAMESERVER_NAME", floor=3)
     R.rule("C14-R5", "an argument whose len() the SQL metadata search binds as a count is a set when it gets there", floor=1)
+    R.rule("C14-R9", "what register() stores is the URI's text, printed verbatim from its fields (shared with C19-R3/R5)", floor=2)
     R.rule("C14-R8", "the generic (in-memory) filter matches literally and case-sensitively", floor=1)
     R.rule("C14-R7", "a missing key raises KeyError on both back-ends", floor=1)
     R.rule("C14-R6", "removal counts: len() of the very list handed to remove_items; 1 only after the guarded delete", floor=3)
@@ -108,6 +109,9 @@ def run(ctx, R, tier):
                 continue
             words = set(re.findall(r"[A-Za-z_]+", text.upper()))
             ops = words & PATTERN_OPS
+            # ordering comparisons on the name column depend on collation / code-point order: not a literal-prefix idiom
+            if re.search(r"\bname\s*(>=|<=|<|>)|\bBETWEEN\b", " ".join(text.split()), re.I):
+                ops = ops | {"RANGE-COMPARISON"}
             ok = not dyn and not ops
             why = ""
             if dyn:
@@ -220,8 +224,19 @@ def run(ctx, R, tier):
     folds = [n for n in walk_no_nested(lst.node) if isinstance(n, ast.Call) and isinstance(n.func, ast.Attribute) and n.func.attr in ("lower", "upper", "casefold", "strip")]
     rxc = [n for n in walk_no_nested(lst.node) if isinstance(n, ast.Call) and dotted(n.func) == "re.compile"]
     rx_ok = bool(rxc) and all(len(c.args) == 1 and not c.keywords and unparse(c.args[0]) == "regex" for c in rxc)
-    R.check(len(sw) == 1 and not folds and rx_ok, "C14-R8", "NameServer.list|literal-matching", "the generic filter matches prefixes with str.startswith on the raw name and compiles the regex without flags", lst.loc(),
-            "names are case-folded/stripped or the regex is compiled with flags: %s" % ([unparse(x) for x in folds + rxc][:3]))
+    anch = [n for n in walk_no_nested(lst.node) if isinstance(n, ast.Call) and isinstance(n.func, ast.Attribute) and n.func.attr in ("match", "search", "fullmatch", "findall")
+            and isinstance(n.func.value, ast.Name) and n.func.value.id == "regex"]
+    rx_ok = rx_ok and len(anch) == 1 and anch[0].func.attr == "match"
+    R.check(len(sw) == 1 and not folds and rx_ok, "C14-R8", "NameServer.list|literal-matching", "the generic filter matches prefixes with str.startswith on the raw name and applies the flag-less regex with match() (anchored at the start)", lst.loc(),
+            "names are case-folded/stripped, the regex is compiled with flags, or it is not applied with .match(): %s" % ([unparse(x) for x in folds + rxc + anch][:4]))
+    # the printer/parser agreement of URIs is part of the map's fidelity (register stores str(uri), lookup re-parses)
+    from ..report import Rules as _Rules
+    from . import c19 as _c19
+    R19 = _Rules("C19")
+    _c19.run(ctx, R19, tier)
+    for o in R19.obs:
+        if o.key in ("C19-R3|printer|fields-verbatim", "C19-R5|NameServer.register|stores-text"):
+            R.add("C14-R9", o.key.split("|", 1)[1], o.desc, o.ok, o.loc, o.detail)
 
     # ---------------------------------------------------------------- R7
     gi = sq.methods["__getitem__"]
